@@ -3,6 +3,7 @@ C13 — the oracle rejects what it should reject: negative examples for every cl
 (theorem audit: an oracle that accepts everything makes every "judge = ok" meaningless).
 -/
 import NV.C13.Spec
+import NV.C13.SpecStall
 
 namespace NV.C13
 
@@ -51,5 +52,11 @@ example : judgeEv .telnet [.rx [a, 13, 10], .st 0 1700 0 0 128, .ask 682] ≠ []
 example : judgeEv .telnet [.rx [a, b, 8, 13, 10], .cmd [a], .nocmd] = [] := by decide
 example : judgeEv .ascii [.rx [a, 10, b, 10], .input [a], .cberr, st0, .rx [10], .input [b], .input [], st0] = [] := by decide
 example : judgeEv .telnet [.rx [a, 13], .rx [10], .cmd [a], .nocmd] = [] := by decide
+
+/-! stall clause -/
+example : judgeStall 10 true [.ask 682, .rx [1, 2, 3], .st 0 3 0 0 0] ≠ [] := by decide
+example : judgeStall 3 true [.ask 682, .rx [1, 2, 3], .st 0 3 0 0 0] = [] := by decide
+example : judgeStall 10 false [.ask 682, .rx [1, 2, 3]] = [] := by decide
+example : judgeStall 10 true [.ask 682, .rx [1, 2, 3], .closed] = [] := by decide
 
 end NV.C13
